@@ -166,3 +166,35 @@ def winFsValid (fs : FS) : List Op → Bool
   | op :: rest => winValid fs op && winFsValid (fsAfter fs op) rest
 
 end WD.Win
+
+namespace WD.Win
+open WD WD.Pipe
+
+/-- the records of several operations issued before the emitter reads: each operation's records as the OS queues them
+    (against the file system as it is when the operation happens), one after the other; and the final file system -/
+def winRecsAll (fs : FS) (recursive : Bool) : List Op → FS × List WRec
+  | [] => (fs, [])
+  | op :: rest =>
+    let r := winRecs fs recursive op
+    let (fsN, more) := winRecsAll (fsAfter fs op) recursive rest
+    (fsN, r ++ more)
+
+/-- a whole burst handed to `queue_events` in ONE read, after its last operation -/
+def WSys.burst (s : WSys) (ops : List Op) : WSys × List PEv :=
+  let (fsN, recs) := winRecsAll s.fs s.recursive ops
+  if s.st.stopped then ({ s with fs := fsN }, [])
+  else
+    let r := emitBatch fsN s.recursive s.st recs
+    ({ s with fs := fsN, st := r.1 }, r.2)
+
+/-- file operations (Windows refuses to rename onto an existing name: `winValid`) -/
+def winFileKind (fs : FS) : Op → Bool
+  | .create _ | .write _ | .unlink _ | .chmod _ => true
+  | .rename p _ => fs.isFile p
+  | _ => false
+
+def winAllFile (fs : FS) : List Op → Bool
+  | [] => true
+  | op :: rest => winValid fs op && winFileKind fs op && winAllFile (fsAfter fs op) rest
+
+end WD.Win
